@@ -495,6 +495,55 @@ def eval_arm_state(acc, mr, ac, q, V, sidx, raised_seen):
         compare("arm_fd_inverts_id", afd, qdd, T, c, space=M)
 
 
+def eval_arm_reuse(acc, mr, ac, states, V):
+    """One arm object, ONE set of argument buffers overwritten in place from state to state (as an integrator does with
+    `q += dt*qd`): every Arm-level answer must belong to the values the buffers hold NOW.  A result cached under a
+    reference to the caller's array, or a scratch buffer handed out twice, is only wrong here."""
+    arm, n = ac.arm, ac.n
+    Ml, Gl, S = ac.Ml, ac.Gl, ac.S
+    qb, qdb, qddb, gb, Fb = np.zeros(n), np.zeros(n), np.zeros(n), np.zeros(3), np.zeros(6)
+    held = []
+    for k, q in enumerate(states):
+        qb[:] = q
+        qdb[:] = V.qd[(k % (n + 1)) + 1] if k % 2 else V.qd[0]
+        qddb[:] = V.qdd[n + 1] if k % 3 == 0 else V.qdd[0]
+        gb[:] = V.g[4] if k % 2 == 0 else V.g[0]
+        Fb[:] = V.F[7] if k % 4 == 1 else V.F[0]
+        base = {"part": "arms_reuse", "arm": ac.name, "step": k, "q": q.copy()}
+        M = call("MassMatrix", mr.MassMatrix, q.copy(), Ml, Gl, S)
+        tau = call("InverseDynamics", mr.InverseDynamics, q.copy(), qdb.copy(), qddb.copy(), gb.copy(), Fb.copy(), Ml, Gl, S)
+        fd = call("ForwardDynamics", mr.ForwardDynamics, q.copy(), qdb.copy(), tau.copy(), gb.copy(), Fb.copy(), Ml, Gl, S)
+        sM = amax(M)
+        T = max(1.0, amax(tau), amax(M @ qddb))
+        try:
+            with dynlib_quiet():
+                got = {"massMatrix": flat(arm.massMatrix(qb)),
+                       "inverseDynamics": flat(arm.inverseDynamics(qb, qdb, qddb, gb, Fb)[0]),
+                       "forwardDynamicsE_M": flat(arm.forwardDynamicsE(qb, qdb, tau, gb, Fb)[1]),
+                       "forwardDynamicsE": flat(arm.forwardDynamicsE(qb, qdb, tau, gb, Fb)[0]),
+                       "coriolisGravity": flat(arm.coriolisGravity(qb, qdb, gb))}
+        except Exception as e:
+            acc.violation("raised", dict(base, fn="reuse sequence"), repr(e))
+            continue
+        cg = call("VelQuadraticForces", mr.VelQuadraticForces, q.copy(), qdb.copy(), Ml, Gl, S) + \
+            call("GravityForces", mr.GravityForces, q.copy(), gb.copy(), Ml, Gl, S)
+        want = {"massMatrix": (flat(M), sM), "inverseDynamics": (flat(tau), T), "forwardDynamicsE_M": (flat(M), sM),
+                "forwardDynamicsE": (flat(fd), max(1.0, amax(fd))), "coriolisGravity": (flat(cg), T)}
+        for name, (w, sc) in want.items():
+            acc.evals += 1
+            r = amax(got[name] - w) / sc if got[name].shape == w.shape and finite(got[name]) else float("inf")
+            acc.resid("arm_reused_buffers", r)
+            if not r <= (1e-6 if name == "forwardDynamicsE" else REL):
+                acc.violation("arm_reused_buffers", dict(base, fn=name), {"rel": r}, REL)
+        # answers handed out earlier must not have been overwritten by later calls
+        for k0, name, arr, snap in held:
+            if not np.array_equal(arr, snap):
+                acc.violation("earlier_result_overwritten", dict(base, fn=name, from_step=k0), {"diff": amax(arr - snap)}, 0.0)
+        held = [(k, name, arr, arr.copy()) for name, arr in got.items()]
+        if max(amax(qb - q), 0.0) != 0.0:
+            acc.violation("arm_reused_buffers", dict(base, fn="argument modified"), {"diff": amax(qb - q)}, 0.0)
+
+
 def work_arms(p):
     mr = _mr()
     acc = lattice.Acc()
@@ -514,6 +563,11 @@ def work_arms(p):
         eval_state(acc, mr, {"part": "arms", "arm": name, "state": s, "physical": True}, ac.Ml.copy(), ac.Gl.copy(), ac.S.copy(), q, V, s)
         if s == 1:
             acc.sample({"case": {"part": "arms", "arm": name, "q": q}})
+            sts = dynlib.arm_states(ac.n, ac.lo, ac.hi, p["tier"])
+            try:
+                eval_arm_reuse(acc, mr, ac, [sts[i] for i in sorted({len(sts) - 1 - j * max(1, len(sts) // 9) for j in range(9)} | {0})], V)
+            except LibRaised as e:
+                acc.violation("raised", {"part": "arms_reuse", "arm": name, "fn": e.fn}, repr(e.exc))
     return acc.result()
 
 
@@ -604,6 +658,16 @@ def replay(rec):
     seed, tier = rec.get("seed", 0), rec.get("tier", "quick")
     mr = _mr()
     acc = lattice.Acc(max_viol=100000)
+    if c["part"] == "arms_reuse":
+        ac = dynlib.build_arm(c["arm"], seed)
+        V = vecs(ac.n, seed)
+        sts = dynlib.arm_states(ac.n, ac.lo, ac.hi, tier)
+        try:
+            eval_arm_reuse(acc, mr, ac, [sts[i] for i in sorted({len(sts) - 1 - j * max(1, len(sts) // 9) for j in range(9)} | {0})], V)
+        except LibRaised as e:
+            acc.violation("raised", {"part": "arms_reuse", "arm": c["arm"], "fn": e.fn}, repr(e.exc))
+        return [v for v in acc.viols if v["clause"] == rec["clause"] and v["case"].get("fn") == c.get("fn")
+                and v["case"].get("step") == c.get("step")]
     if c["part"] in ("chains", "windows"):
         run_chain_item(acc, mr, (tuple(c["joints"]), c["frames"], c["inertia"], c["state"]), seed, c["part"] == "windows")
     else:
